@@ -211,7 +211,14 @@ def run(ctx):
                 hist_repr.append(['eval', addr])
                 impl_trace.append((r, wbgen.snapshot(comp, wb)))
                 # ---- the property's oracle
-                want = fresh_value(wb, inputs, n)
+                try:
+                    want = fresh_value(wb, inputs, n)
+                except Exception as exc:    # noqa: BLE001
+                    ctx.violation(dict(call='history', stream=stream, late_build=late_build,
+                                       workbook=[(x['addr'], x.get('value'), x.get('text')) for x in wb.nodes],
+                                       history=list(hist_repr)),
+                                  f"a from-scratch compile with the current inputs raises {type(exc).__name__}: {exc}"[:200])
+                    break
                 ctx.count((k, step), kind='oracle:' + stream)
                 if r != want:
                     ctx.violation(dict(call='history', stream=stream, late_build=late_build,
